@@ -19,7 +19,9 @@ import (
 	"golang.org/x/tools/go/ssa/ssautil"
 )
 
-const repoDir = "/repo"
+// repoDir is the tree under verification: /repo (VERIF_REPO overrides it only for evaluating
+// seeded changes in a scratch worktree without disturbing /repo).
+var repoDir = "/repo"
 const modPath = "github.com/gobwas/ws"
 
 var verifDir = "/verif"
@@ -172,11 +174,12 @@ type RunConfig struct {
 	Solver   string
 	WitnessN int
 	Verbose  bool
+	Seed     int64
 }
 
 func runEngine(l *Loaded, rc RunConfig) []*Harness {
 	e := &Engine{prog: l.prog, pkgs: l.pkgs, maxPaths: rc.MaxPaths, deadline: time.Now().Add(rc.Timeout),
-		solver: rc.Solver, nworkers: rc.Workers, witnessN: rc.WitnessN, verbose: rc.Verbose}
+		solver: rc.Solver, nworkers: rc.Workers, witnessN: rc.WitnessN, verbose: rc.Verbose, seed: rc.Seed}
 	tierVal = rc.Tier
 	for short, names := range l.harnesses {
 		for _, n := range names {
@@ -200,6 +203,9 @@ func main() {
 		fatal("usage: symgo run|check|selftest ...")
 	}
 	debug.SetGCPercent(400)
+	if d := os.Getenv("VERIF_REPO"); d != "" {
+		repoDir = d
+	}
 	if d := os.Getenv("VERIF_DIR"); d != "" {
 		verifDir = d
 	}
